@@ -13,12 +13,15 @@ FUNCTIONS = ["FlodymArray.sum_to", "FlodymArray.sum_over", "FlodymArray.sum_valu
              "FlodymArray.get_shares_over", "FlodymArray.cumsum"]
 ASSUMPTIONS = ["shares: the total over the given dimensions is non-zero (the property's own guard)"]
 OUTSIDE = ["more than 4 dimensions", "lengths above 3", "IEEE rounding"]
+VARIANTS = 'DimensionSet arguments (own and foreign); shares after an in-place write; foreign Dimension objects'
 BOUNDS = {
     "quick": dict(universe="abc", lengths=[1, 2, 3], array_dims="every ordered subset", kept_summed_added="every subset in every order",
                   naming="letters, names, Dimension objects, mixed"),
     "thorough": dict(universe="abcd", lengths="{1,2,3} patterns with total size <= 36", array_dims="every ordered subset",
                      kept_summed_added="every subset in every order", naming="letters, names, Dimension objects, mixed"),
 }
+for _t in BOUNDS.values():
+    _t["variants_beyond_the_base_enumeration"] = VARIANTS
 # dtype shadow: every shadowed configuration is run once more on integer-dtype arrays (differential concrete run)
 DTYPE_SHADOW = lambda cfg: cfg["h"] != "shares"
 OPTS = {"quick": dict(shadow_every=50), "thorough": dict(shadow_every=300)}
